@@ -19,11 +19,12 @@ def pairwiseB {α : Type} (r : α → α → Bool) : List α → Bool
   | x :: xs => xs.all (r x) && pairwiseB r xs
 
 /-- well-formed values: PODs have their size, POD vectors a whole number of elements, sets and map
-keys are strictly increasing (what a `std::set` / `std::map` can hold) -/
+keys are strictly increasing, multisets and multimap keys non-decreasing (what the containers can hold),
+arrays have their length -/
 def wf : (ty : Ty) → Val ty → Bool
   | .pod n, v => v.length == n
   | .str, _ => true
-  | .vecPod n, v => n != 0 && v.length % n == 0
+  | .vecPod n, v => v.length % n == 0
   | .seq t, v => v.all (wf t)
   | .set t, v => v.all (wf t) && pairwiseB (lt t) v
   | .map k w, v => v.all (fun x => wf k x.1 && wf w x.2) && pairwiseB (fun x y => lt k x.1 y.1) v
@@ -32,6 +33,9 @@ def wf : (ty : Ty) → Val ty → Bool
     match v with
     | none => true
     | some x => wf t x
+  | .mset t, v => v.all (wf t) && pairwiseB (fun x y => !lt t y x) v
+  | .mmap k w, v => v.all (fun x => wf k x.1 && wf w x.2) && pairwiseB (fun x y => !lt k y.1 x.1) v
+  | .arr t n, v => v.length == n && v.all (wf t)
 
 /-- the guard under which `write_chunk`'s `uint32_t size = len` and the `size_t` element counts do
 not truncate: every chunk payload is shorter than 2^32 bytes, every count below 2^64 -/
@@ -47,6 +51,9 @@ def sizesFit : (ty : Ty) → Val ty → Bool
     match v with
     | none => true
     | some x => sizesFit t x
+  | .mset t, v => decide (v.length < 2 ^ 64) && v.all (sizesFit t)
+  | .mmap k w, v => decide (v.length < 2 ^ 64) && v.all (fun x => sizesFit k x.1 && sizesFit w x.2)
+  | .arr t _, v => v.all (sizesFit t)
 
 /-- types whose archives are canonical (no set/map re-ordering, no pointer flag): a successful load
 must have consumed exactly `save` of the value it returned -/
@@ -59,6 +66,9 @@ def flat : Ty → Bool
   | .map _ _ => false
   | .pair a b => flat a && flat b
   | .ptr _ => false
+  | .mset _ => false
+  | .mmap _ _ => false
+  | .arr t _ => flat t
 
 /-- Judge for one successful load of the real code: archive `b`, returned value `v`, final `ptr_ = p`.
 The cursor stayed inside the archive, the value is one the C++ type can hold, and for canonical
